@@ -21,6 +21,8 @@ def instances(tier):
                         'bound': 'base instant %d, zone offset syntax %s with symbolic sign, hours 00-23%s' % (b, ('+HH', '+HHMM', '+HH:MM')[syn], ' and minutes 00-59' if syn else '')})
     for k in ((1, 3, 8, 9) if q else (1, 2, 3, 4, 5, 6, 7, 8, 9)):
         out.append({'entry': 'h_frac', 'params': [k, k % 2], 'opts': {'timeout_ms': 300000}, 'bound': 'fractional seconds with every %d digit(s), zone %s' % (k, '+01:00' if k % 2 else 'Z')})
+    for yi in ((2, 4, 8) if q else (1, 2, 3, 4, 5, 6, 7, 8)):
+        out.append({'entry': 'h_http', 'params': [yi], 'opts': {'timeout_ms': 300000}, 'bound': 'HTTP-format vs ISO-format text of the same date: year %s, every day 01-28 (symbolic digits)' % ['', '0001', '0050', '0099', '0100', '1900', '1969', '2000', '9999'][yi]})
     return out
 
 
